@@ -155,3 +155,22 @@ def lppdSharesOK (rate : Dec) (pre : St) (changes : List (String × String × Na
     decide ((Nat.cast paid : Rat) ≤ ft.1 + ft.2.1) && (ft.2.2 || decide (ft.1 - ft.2.1 ≤ (Nat.cast paid : Rat))))
 
 end Sif.Spec.C18
+
+namespace Sif.Spec.C18
+open Sif Sif.Clp
+
+/-- "accounts that are not eligible providers receive nothing", judged against the harness's own ledger of the adds the
+    implementation accepted (pool symbol, address, height of the last accepted create / add) instead of the stored
+    `LastUpdatedBlock`: an account whose balance of a pool's asset grew during the epoch hook last added to that pool
+    strictly more than the rewards lock period ago (`last < height − lock`, the code's own eligibility test).  Removals
+    are not in the ledger (if they restart the period too, the predicate is only more permissive). -/
+def eligibleByLedgerOK (lock : Nat) (height : Int) (changes : List (String × String × Nat × Nat))
+    (ledger : List (String × String × Int)) : Bool :=
+  changes.all (fun c =>
+    let acct := c.1; let d := c.2.1
+    decide (c.2.2.2 ≤ c.2.2.1) || acct = clpAcct || d = rowan ||
+    (match ledger.find? (fun e => e.1 == d && e.2.1 == acct) with
+     | some e => decide (e.2.2 < height - (lock : Int))
+     | none => false))
+
+end Sif.Spec.C18
